@@ -322,6 +322,17 @@ def gen_payload(rng, n):
         return [["lit", rng.randbytes(n).hex()]] if n else []
     spec = [["lit", rng.randbytes(8).hex()]]
     rem = n - 16
+    if n >= 96 and rng.chance(0.3):
+        # the payload is opaque: here it holds the format's own magic strings (an archive of envelopes, this library's
+        # source, ...), followed by bytes that would read as a footer's padding field
+        word = rng.pick([b"DataTransformCryptoFooter", b"DataTransformAeadFooter", b"DataTransformEnvelope\x00"])
+        lit = word + rng.pick([b"", b"\x00" * 3, rng.randbytes(4), (1 << rng.randrange(1, 12)).to_bytes(4, "little")])
+        if rng.chance(0.5):
+            k = rng.randint(1, rem - len(lit) - 1)
+            spec.append(["rep", rng.randrange(256), k])
+            rem -= k
+        spec.append(["lit", lit.hex()])
+        rem -= len(lit)
     while rem > 0:
         k = min(rem, rng.randint(8, max(8, min(rem, n // 3 + 8))))
         if k < 8:
